@@ -58,20 +58,42 @@ template<class T> inline void gjet(size_t site, size_t state, T theta, T& g, T& 
   g = (T)1 + (T)s * u / (T)2 + (T)q * u * u / (T)4; g1 = (T)s / (T)2 + (T)q * u / (T)2; g2 = (T)q / (T)2;
 }
 
+// second emission parameter phi: factor h_{ij}(phi) of the same form with another coefficient pattern; e = base * g(theta) * h(phi),
+// h(1) = 1, so that at phi = 1 the table is exactly the one-parameter table.
+inline void hcoef(size_t site, size_t state, int& s, int& q) {
+  static const int S[4] = {-1, 1, 1, 0}; static const int Q[3] = {1, 0, 1};
+  s = S[(2 * site + state) % 4]; q = Q[(site + 2 * state) % 3];
+}
+template<class T> inline void hjet(size_t site, size_t state, T phi, T& h, T& h1, T& h2) {
+  int s, q; hcoef(site, state, s, q); T u = phi - (T)1;
+  h = (T)1 + (T)s * u / (T)2 + (T)q * u * u / (T)4; h1 = (T)s / (T)2 + (T)q * u / (T)2; h2 = (T)q / (T)2;
+}
+
 class HEmis : public virtual bpp::HmmEmissionProbabilities, public bpp::AbstractParametrizable {
   std::shared_ptr<const bpp::HmmStateAlphabet> a_;
   std::vector<std::vector<double>> base_;
   mutable std::vector<std::vector<double>> e_, d1_, d2_;
   void fill_() {
-    double th = getParameterValue("theta");
+    double th = getParameterValue("theta"), ph = getParameterValue("phi");
     for (size_t i = 0; i < base_.size(); ++i) for (size_t j = 0; j < base_[i].size(); ++j) {
-      double g, g1, g2; gjet<double>(i, j, th, g, g1, g2); e_[i][j] = base_[i][j] * g;
+      double g, g1, g2, h, h1, h2; gjet<double>(i, j, th, g, g1, g2); hjet<double>(i, j, ph, h, h1, h2); e_[i][j] = base_[i][j] * g * h;
+    }
+  }
+  // k-th derivative table (k = 1, 2) with respect to the named variable at the CURRENT parameter values; zero for any other name
+  void dfill_(const std::string& variable, int k, std::vector<std::vector<double>>& out) const {
+    double th = getParameterValue("theta"), ph = getParameterValue("phi");
+    for (size_t i = 0; i < base_.size(); ++i) for (size_t j = 0; j < base_[i].size(); ++j) {
+      double g, g1, g2, h, h1, h2; gjet<double>(i, j, th, g, g1, g2); hjet<double>(i, j, ph, h, h1, h2);
+      if (variable == "theta") out[i][j] = base_[i][j] * (k == 1 ? g1 : g2) * h;
+      else if (variable == "phi") out[i][j] = base_[i][j] * g * (k == 1 ? h1 : h2);
+      else out[i][j] = 0.;
     }
   }
 public:
-  HEmis(std::shared_ptr<const bpp::HmmStateAlphabet> a, const std::vector<std::vector<double>>& base, double theta = 1.0)
+  HEmis(std::shared_ptr<const bpp::HmmStateAlphabet> a, const std::vector<std::vector<double>>& base, double theta = 1.0, double phi = 1.0)
     : bpp::AbstractParametrizable(""), a_(a), base_(base), e_(base), d1_(base), d2_(base) {
     addParameter_(new bpp::Parameter("theta", theta));
+    addParameter_(new bpp::Parameter("phi", phi));
     fill_();
   }
   HEmis* clone() const override { return new HEmis(*this); }
@@ -82,19 +104,9 @@ public:
   double operator()(size_t pos, size_t state) const override { return e_[pos][state]; }
   const std::vector<double>& operator()(size_t pos) const override { return e_[pos]; }
   size_t getNumberOfPositions() const override { return base_.size(); }
-  // derivative tables are always those of the CURRENT theta for the requested variable (zero for any other variable)
-  void computeDEmissionProbabilities(std::string& variable) const override {
-    double th = getParameterValue("theta");
-    for (size_t i = 0; i < base_.size(); ++i) for (size_t j = 0; j < base_[i].size(); ++j) {
-      double g, g1, g2; gjet<double>(i, j, th, g, g1, g2); d1_[i][j] = (variable == "theta") ? base_[i][j] * g1 : 0.;
-    }
-  }
-  void computeD2EmissionProbabilities(std::string& variable) const override {
-    double th = getParameterValue("theta");
-    for (size_t i = 0; i < base_.size(); ++i) for (size_t j = 0; j < base_[i].size(); ++j) {
-      double g, g1, g2; gjet<double>(i, j, th, g, g1, g2); d2_[i][j] = (variable == "theta") ? base_[i][j] * g2 : 0.;
-    }
-  }
+  // derivative tables are always those of the CURRENT parameter values for the requested variable (zero for any other variable)
+  void computeDEmissionProbabilities(std::string& variable) const override { dfill_(variable, 1, d1_); }
+  void computeD2EmissionProbabilities(std::string& variable) const override { dfill_(variable, 2, d2_); }
   const std::vector<double>& getDEmissionProbabilities(size_t pos) const override { return d1_[pos]; }
   const std::vector<double>& getD2EmissionProbabilities(size_t pos) const override { return d2_[pos]; }
 };
@@ -110,13 +122,14 @@ struct Model {
   std::vector<std::vector<double>> P;     // P[i][j] = Pr(next = j | current = i), the doubles handed to / reported by the library
   std::vector<double> pi;                 // the equilibrium vector handed to / reported by the library
   std::vector<std::vector<double>> base;  // emission table at theta = 1
-  double theta = 1.0;
+  double theta = 1.0, phi = 1.0;
+  int var = 0;                            // the variable the reference differentiates with respect to: 0 = theta, 1 = phi
   std::vector<size_t> bp;                 // ascending, each in 1..L-1: first site of a new segment
 };
 
 struct Ref {
   bool positive = false;                  // total likelihood > 0
-  LD logL = 0, d1 = 0, d2 = 0;            // log-likelihood and its derivatives with respect to theta
+  LD logL = 0, d1 = 0, d2 = 0;            // log-likelihood and its derivatives with respect to the model's variable (Model::var)
   std::vector<std::vector<LD>> post;      // posterior state probabilities (defined when positive)
   std::vector<LD> siteLik;                // sum_j post[i][j] * e(i,j)
 };
@@ -127,10 +140,11 @@ inline std::vector<LD> startVector(const Model& m) {       // pi . P, as the lib
   return s;
 }
 inline Jet emis(const Model& m, size_t site, size_t state) {
-  LD g, g1, g2; gjet<LD>(site, state, (LD)m.theta, g, g1, g2); LD b = (LD)m.base[site][state];
-  // value exactly as the library sees it (double product), derivatives in long double
-  double gd, gd1, gd2; gjet<double>(site, state, m.theta, gd, gd1, gd2);
-  return Jet{(LD)(m.base[site][state] * gd), b * g1, b * g2};
+  LD g, g1, g2, h, h1, h2; gjet<LD>(site, state, (LD)m.theta, g, g1, g2); hjet<LD>(site, state, (LD)m.phi, h, h1, h2); LD b = (LD)m.base[site][state];
+  // value exactly as the library sees it (double products in the same order), derivatives in long double
+  double gd, gd1, gd2, hd, hd1, hd2; gjet<double>(site, state, m.theta, gd, gd1, gd2); hjet<double>(site, state, m.phi, hd, hd1, hd2);
+  LD v = (LD)(m.base[site][state] * gd * hd);
+  return m.var == 0 ? Jet{v, b * g1 * h, b * g2 * h} : Jet{v, b * g * h1, b * g * h2};
 }
 
 // depth-first enumeration of every hidden path of one segment [a,b): returns the sum over all completions of the prefix,
